@@ -20,7 +20,7 @@ def real_dump(q, keys):
             f"keysBy={kb} deferrals={df}")
 
 
-def execute(progs, keys, choices=None, rng=None, max_steps=4000):
+def execute(progs, keys, choices=None, rng=None, max_steps=4000, mid_cs=False):
     """progs: list of thread programs; each a list of ops:
        ("put", id, excl, key, wait) | ("get", timeout) | ("done",) [task_done of oldest held key] | ("donekey", key)
        | ("join",) | ("size", kind, arg)"""
@@ -34,6 +34,18 @@ def execute(progs, keys, choices=None, rng=None, max_steps=4000):
 
     class ObsQueue(qmod.FairMultiFIFOQueue):
         __slots__ = []
+
+        # mid_cs: scheduling points INSIDE the queue's critical sections (at the metric updates, where the counters are
+        # half-updated); threads that take the lock cannot run there, a reader that forgot the lock can
+        def _inc_metrics(self, *a, **k):
+            if mid_cs and self._lock.owner is s.me() and s.me() is not None:
+                s.yield_point()
+            return super()._inc_metrics(*a, **k)
+
+        def _dec_metrics(self, *a, **k):
+            if mid_cs and self._lock.owner is s.me() and s.me() is not None:
+                s.yield_point()
+            return super()._dec_metrics(*a, **k)
 
         def put(self, item, key, exclusive=False, wait=0):
             r = super().put(item, key, exclusive, wait)
@@ -255,6 +267,41 @@ def oracle(run):
             c = last_check.get(ev[1])
             if c is not None and (c[4] != 0 or c[5] != 0):
                 probs.append(f"join returned although, when it last held the queue lock, {c[4]} items were queued and {c[5]} in progress")
+    probs += size_oracle(run)
     if run["result"] == "deadlock":
         probs.append(f"deadlock: {run['blocked']}")
+    return probs
+
+
+def sizes_of_dump(dump):
+    import re
+    m = re.match(r"tq=(\d+) ti=(\d+) joining=\d fifos=(.*); keysBy=\S* deferrals=(.*)$", dump)
+    tq, ti, fifos, df = int(m.group(1)), int(m.group(2)), m.group(3), m.group(4)
+    per = {}
+    for part in fifos.split():
+        k, ids, inp, _lk = part.split(":")
+        per[int(k)] = (0 if ids == "[-]" else len(ids.strip("[]").split(","))) + int(inp)
+    return {"qsize": tq, "inprogress": ti, "deferred": 0 if not df else len(df.split(",")), "fifo": per}
+
+
+def size_oracle(run):
+    """truthful sizes: a size query returns the value of the state before or after the critical section that is in
+    progress (if any) when it is answered; never a value from the middle of one"""
+    probs = []
+    log = run["log"]
+    dumps = [(i, ev[-1]) for i, ev in enumerate(log) if ev[0] in ("put", "getend", "done") and isinstance(ev[-1], str)]
+    init = {"qsize": 0, "inprogress": 0, "deferred": 0, "fifo": {}}
+    for i, ev in enumerate(log):
+        if ev[0] != "size" or ev[2] == "deferred":
+            continue     # the deferral list lives under its own lock and changes (promotion, join) without a dump: model stage
+        _, tid, kind, arg, v = ev
+        before = [d for j, d in dumps if j < i]
+        after = [d for j, d in dumps if j > i]
+        cands = [sizes_of_dump(before[-1]) if before else init]
+        if after:
+            cands.append(sizes_of_dump(after[0]))
+        allowed = set((c["fifo"].get(arg, 0) if kind == "fifo" else c[kind]) for c in cands)
+        if v not in allowed:
+            probs.append(f"size query {kind}({arg}) by T{tid} returned {v}, but the queue held {sorted(allowed)} before/after the "
+                         f"critical section in progress: the value was read from a half-updated queue")
     return probs
